@@ -140,7 +140,26 @@ class XNS:
         """s[lo:hi] for 0 <= lo <= hi (z3 extract; out-of-range clamps like python)"""
         z = z_of(s)
         lo, hi = toint(lo), toint(hi)
-        return any_(z3.Extract(z, lo, If(hi > lo, hi - lo, IntVal(0))))
+        n = z3.simplify(hi - lo)
+        if concrete(n) is None and not ex.feasible(n < 0):
+            return any_(z3.Extract(z, lo, n))        # hi >= lo on this path: plain extract (helps the solver)
+        return any_(z3.Extract(z, lo, If(n > 0, n, IntVal(0))))
+
+    @staticmethod
+    def lemma_extract_concat(ex, d, s, m, e):
+        """sequence theory: for 0 <= s <= m <= e <= len(d):  d[s:m] + d[m:e] == d[s:e]"""
+        z = z_of(d)
+        s, m, e = toint(s), toint(m), toint(e)
+        return Implies(And(0 <= s, s <= m, m <= e, e <= Length(z)),
+                       Concat(z3.Extract(z, s, m - s), z3.Extract(z, m, e - m)) == z3.Extract(z, s, e - s))
+
+    @staticmethod
+    def lemma_extract_extract(ex, d, b, l, c, k):
+        """sequence theory: for 0 <= b, b + l <= len(d), 0 <= c, 0 <= k, c + k <= l:  d[b:b+l][c:c+k] == d[b+c:b+c+k]"""
+        z = z_of(d)
+        b, l, c, k = toint(b), toint(l), toint(c), toint(k)
+        return Implies(And(0 <= b, b + l <= Length(z), 0 <= c, 0 <= k, c + k <= l, 0 <= l),
+                       z3.Extract(z3.Extract(z, b, l), c, k) == z3.Extract(z, b + c, k))
 
     @staticmethod
     def implies(ex, a, b):
